@@ -252,7 +252,7 @@ type c21Runner struct {
 }
 
 func c21NewRunner() *c21Runner {
-	s := NewSched()
+	s := NewSched().Only("pc.close.", "pc.ucs.")
 	s.Grace = 100 * time.Microsecond
 	return &c21Runner{s: s}
 }
